@@ -572,6 +572,7 @@ func runCheck(sp *spec, tier string) int {
 		order = order[:6]
 	}
 	os.MkdirAll(filepath.Join(verifDir, "replays"), 0755)
+	seenMin := map[string]bool{}
 	for _, fp := range order {
 		v := groups[fp]
 		v.Tier = tier
@@ -583,6 +584,10 @@ func runCheck(sp *spec, tier string) int {
 			infra("violation %q (seed %d, run %d) did not replay: %s", fp, v.Seed, v.Index, min.Msg)
 		}
 		min.Tier = tier
+		if seenMin[min.Fingerprint] {
+			continue
+		}
+		seenMin[min.Fingerprint] = true
 		path := filepath.Join(verifDir, "replays", fmt.Sprintf("%s-%s.json", sp.ID, shortHash(min.Fingerprint)))
 		writeJSON(path, min)
 		if f := matchFinding(known, sp.ID, min.Fingerprint); f != nil {
